@@ -8,6 +8,8 @@
 //	dial  through ParseArgs + Dial on a scripted conn: genuine / forged / modified exchanges,
 //	      a client configured with another node ID or public key
 //	srv   reference client <-> real server (WrapConn): genuine, and with a wrong identity
+//	fresh 8 WrapConn calls overlapping on one factory + 8 sequential ones: pairwise distinct Y',
+//	      session keys, and per-connection random draws as the model's; 8 clients: distinct X'
 //	conc  (thorough) 32 real clients concurrently against one real server factory
 //
 // C (correspondence): outcome class per read-loop iteration, bytes consumed and the derived
@@ -417,6 +419,9 @@ func runFn(c ccase) (retry bool) {
 			panic(err)
 		}
 		tape.Steer = nil
+		if h2.EpochHour() != strconv.FormatInt(hour0, 10) {
+			return true // the epoch hour changed under the case
+		}
 		sh2 := ref.Fresh("c")
 		rep := ref.CliNew(sh2, nid2, pk2, ltape, hour0)
 		if rep.Class != "ok" {
@@ -503,7 +508,8 @@ func runDial(c ccase) (retry bool) {
 	}
 	if wrongID {
 		// the genuine server must not even answer: it cannot verify MAC_C
-		if srep.Class != "need" {
+		// (`need`; `invalid` when the client handshake is 8192 bytes long — never `ok`)
+		if srep.Class != "need" && srep.Class != "invalid" {
 			violate("ref-server-answers-wrong-identity-client", "correspondence", "srv.feed: "+srep.Raw, c)
 		}
 		// the man in the middle answers instead, with the genuine identity's public values
@@ -679,7 +685,7 @@ func runSrv(c ccase) (retry bool) {
 		violate("wrapconn-returned-before-input", "impl-oracle", "WrapConn returned before any client byte", c)
 		return
 	}
-	keyDraw := len(tape.Since(m))
+	drawn := tape.Since(m)
 	parts := o4h.Split(rep.Data, o4h.Chunks(rng, c.Chunk, len(rep.Data), []int{32, len(rep.Data) - 32, len(rep.Data) - 16}))
 	for _, p := range parts {
 		ep.Conn.Feed(p)
@@ -692,9 +698,7 @@ func runSrv(c ccase) (retry bool) {
 	}
 	r.Validated(1)
 	r.Count("srv_kind", c.Kind)
-	if (keyDraw-8)%32 != 0 && (keyDraw-16)%32 != 0 && (keyDraw-24)%32 != 0 {
-		violate("wrapconn-key-draw", "impl-oracle", fmt.Sprintf("WrapConn drew %d random bytes before reading (expected 32 per key attempt + 8 per IntRange draw)", keyDraw), c)
-	}
+	wrapDrawOK(c, id, drawn) // tie only; the S oracle for fresh keys is the `fresh` family
 	defer func() { ref.Drop(cli); ep.Conn.Close() }()
 	if c.Kind != "genuine" {
 		r.Case(c.key(), true)
@@ -757,6 +761,205 @@ func runSrv(c ccase) (retry bool) {
 		}
 	}
 	r.Case(c.key(), true)
+	return false
+}
+
+// wrapDrawOK: what WrapConn drew from the random tape before its first Read must be what the
+// model's WrapConn draws: a fresh session key (32 bytes per Elligator attempt) and the pad length.
+func wrapDrawOK(c ccase, id o4h.Identity, drawn []byte) bool {
+	s := ref.Fresh("w")
+	rep := ref.SrvNew(s, id.NodeID, id.Priv, id.LenSeed, drawn, "")
+	ref.Drop(s)
+	r.Validated(1)
+	if rep.Class != "ok" || rep.Used != len(drawn) {
+		violate("wrapconn-tape-draw-differs", "correspondence",
+			fmt.Sprintf("WrapConn drew %d random bytes before its first Read; the model's WrapConn on those bytes: %s used %d", len(drawn), rep.Class, rep.Used), c)
+		return false
+	}
+	return true
+}
+
+// ---------------------------------------------------------------- fresh: overlapping handshakes on one factory
+
+// runFresh: k WrapConn calls are started on ONE server factory and all block in Read; only then
+// does each get a valid client handshake.  Every response must carry its own ephemeral key Y',
+// also compared with k further sequential handshakes; k separately ParseArgs'd clients must send
+// pairwise distinct X'.
+func runFresh(c ccase) (retry bool) {
+	rng := vlib.NewRng(c.CaseSeed)
+	o4h.InstallTape(c.CaseSeed)
+	tape := o4h.Tape
+	id := o4h.NewIdentity(rng, 0)
+	hour0 := o4h.Hour()
+	sf := id.ServerFactory()
+	const k = 8
+	type sconn struct {
+		ep    *o4h.Endpoint
+		drawn  []byte
+		label  string
+		tapeOK bool
+	}
+	var open []*sconn
+	var ys [][]byte
+	var ylabels []string
+	var keys [][]byte
+	bad := false
+	start := func(label string) *sconn {
+		m := tape.Mark()
+		ep, fin := o4h.StartWrap(sf)
+		sc := &sconn{ep: ep, drawn: tape.Since(m), label: label}
+		if fin {
+			violate("wrapconn-returned-before-input", "impl-oracle", "WrapConn returned before any client byte", c)
+			bad = true
+		} else {
+			sc.tapeOK = wrapDrawOK(c, id, sc.drawn)
+		}
+		return sc
+	}
+	complete := func(sc *sconn) {
+		cli := ref.Fresh("c")
+		defer ref.Drop(cli)
+		rep := ref.CliNew(cli, id.NodeID, id.Pub, refTape(rng), hour0)
+		if rep.Class != "ok" {
+			violate("reference-client-failed", "correspondence", rep.Raw, c)
+			bad = true
+			return
+		}
+		m := tape.Mark()
+		sc.ep.Conn.Feed(rep.Data)
+		done := sc.ep.Conn.Wait(sc.ep.Op)
+		now := time.Now().UnixNano()
+		_, err := sc.ep.Result()
+		if !done || err != nil {
+			violate("real-server-rejects-ref-client", "impl-oracle", fmt.Sprintf("%s: WrapConn done=%v err=%v", sc.label, done, err), c)
+			bad = true
+			return
+		}
+		resp := sc.ep.Conn.TakeWritten()
+		after := tape.Since(m)
+		fr := ref.CliFeed(cli, resp)
+		if fr.Class != "ok" {
+			violate("ref-client-rejects-real-server", "impl-oracle", sc.label+": cli.feed: "+fr.Raw, c)
+			bad = true
+			return
+		}
+		e, d, _ := ref.Keys(cli)
+		ys = append(ys, resp[:32])
+		ylabels = append(ylabels, sc.label)
+		keys = append(keys, append(e, d...))
+		if !sc.tapeOK {
+			return
+		}
+		// the whole connection re-derived from exactly the bytes this WrapConn drew
+		sh := ref.Fresh("s")
+		defer ref.Drop(sh)
+		srep := ref.SrvNew(sh, id.NodeID, id.Priv, id.LenSeed, append(append([]byte(nil), sc.drawn...), after...), "")
+		if srep.Class == "ok" {
+			srep = ref.SrvFeed(sh, rep.Data, hour0, now)
+		}
+		r.Validated(1)
+		if srep.Class != "ok" || !bytes.Equal(srep.Data, resp) || srep.Used != len(sc.drawn)+len(after) {
+			violate("server-response-bytes-differ", "correspondence",
+				fmt.Sprintf("%s: real server wrote %d bytes from %d+%d random bytes; the model derives %s len %d used %d", sc.label, len(resp), len(sc.drawn), len(after), srep.Class, len(srep.Data), srep.Used), c)
+		}
+	}
+	for i := 0; i < k && !bad; i++ {
+		open = append(open, start(fmt.Sprintf("overlapping #%d", i)))
+	}
+	for _, sc := range open {
+		if !bad {
+			complete(sc)
+		}
+	}
+	for i := 0; i < k && !bad; i++ {
+		sc := start(fmt.Sprintf("sequential #%d", i))
+		open = append(open, sc)
+		if !bad {
+			complete(sc)
+		}
+	}
+	for _, sc := range open {
+		if !sc.ep.Op.Done() {
+			sc.ep.Conn.FeedErr(vlib.TimeoutError{})
+			sc.ep.Conn.Wait(sc.ep.Op)
+		}
+		sc.ep.Conn.Close()
+	}
+	if o4h.Hour() != hour0 {
+		return true
+	}
+	for i := range ys {
+		for j := 0; j < i; j++ {
+			if bytes.Equal(ys[i], ys[j]) {
+				violate("ephemeral-key-reused", "impl-oracle",
+					fmt.Sprintf("server connections %q and %q of one factory answered with the same ephemeral key Y' = %x", ylabels[j], ylabels[i], ys[i]), c)
+			}
+			if bytes.Equal(keys[i], keys[j]) {
+				violate("session-keys-reused", "impl-oracle", fmt.Sprintf("connections %q and %q derived the same link keys", ylabels[j], ylabels[i]), c)
+			}
+		}
+	}
+	r.Count("fresh", fmt.Sprintf("server-handshakes-%d", len(ys)))
+	r.Case(c.key()+"|server", len(ys) == 2*k)
+
+	// client side: k separately ParseArgs'd clients, all dialing at once
+	cf := o4h.ClientFactory()
+	var xs [][]byte
+	var ceps []*o4h.Endpoint
+	for i := 0; i < k; i++ {
+		m := tape.Mark()
+		args, err := cf.ParseArgs(id.ClientArgs([]string{"cert", "legacy"}[i%2], 0))
+		if err != nil {
+			violate("parseargs-rejects-bridge-line", "impl-oracle", err.Error(), c)
+			return
+		}
+		kd := len(tape.Since(m))
+		if kd < 32 || kd%32 != 0 {
+			violate("parseargs-key-draw", "impl-oracle", fmt.Sprintf("ParseArgs drew %d random bytes for the session key", kd), c)
+		}
+		ep, fin := o4h.StartDial(cf, args)
+		ceps = append(ceps, ep)
+		if fin {
+			violate("dial-returned-before-response", "impl-oracle", "Dial returned without a response", c)
+			continue
+		}
+		blob := ep.Conn.TakeWritten()
+		full := tape.Since(m)
+		sh := ref.Fresh("c")
+		rep := ref.CliNew(sh, id.NodeID, id.Pub, full, hour0)
+		ref.Drop(sh)
+		r.Validated(1)
+		if o4h.Hour() != hour0 {
+			for _, ep := range ceps {
+				if !ep.Op.Done() {
+					ep.Conn.FeedEOF()
+					ep.Conn.Wait(ep.Op)
+				}
+			}
+			return true
+		}
+		if rep.Class != "ok" || !bytes.Equal(rep.Data, blob) || rep.Used != len(full) {
+			violate("client-handshake-bytes-differ", "correspondence", fmt.Sprintf("client #%d wrote %d bytes from %d random bytes; the model derives %s len %d used %d", i, len(blob), len(full), rep.Class, len(rep.Data), rep.Used), c)
+		}
+		if len(blob) >= 32 {
+			xs = append(xs, blob[:32])
+		}
+	}
+	for _, ep := range ceps {
+		if !ep.Op.Done() {
+			ep.Conn.FeedEOF()
+			ep.Conn.Wait(ep.Op)
+		}
+		ep.Conn.Close()
+	}
+	for i := range xs {
+		for j := 0; j < i; j++ {
+			if bytes.Equal(xs[i], xs[j]) {
+				violate("ephemeral-key-reused", "impl-oracle", fmt.Sprintf("clients #%d and #%d sent the same ephemeral key X' = %x", j, i, xs[i]), c)
+			}
+		}
+	}
+	r.Case(c.key()+"|client", len(xs) == k)
 	return false
 }
 
@@ -875,6 +1078,8 @@ func run(c ccase) {
 			retry = runDial(c)
 		case "srv":
 			retry = runSrv(c)
+		case "fresh":
+			retry = runFresh(c)
 		case "conc":
 			runConc(c)
 		}
@@ -923,6 +1128,9 @@ func main() {
 	srvKinds := []string{"genuine", "genuine", "wrong-nodeid", "wrong-pubkey"}
 	for i, n := 0, r.Scale(40, 600); i < n; i++ {
 		run(ccase{Family: "srv", Kind: srvKinds[i%len(srvKinds)], CaseSeed: rng.U64(), Format: "-", Chunk: vlib.Pick(rng, o4h.ChunkClasses)})
+	}
+	for i, n := 0, r.Scale(3, 40); i < n; i++ {
+		run(ccase{Family: "fresh", Kind: "8-overlapping+8-sequential", CaseSeed: rng.U64(), Format: "both", Chunk: "whole"})
 	}
 	if r.Thorough() {
 		for i := 0; i < 12; i++ {
